@@ -72,6 +72,10 @@ func runC11(c *Ctx, r *Report) {
 				continue
 			}
 			fr := nf.analyseSite(s)
+			if fr.overwritten {
+				r.fail("C11-R1-no-dropped-error", key, pos, fmt.Sprintf("error of %s is dropped when the loop in %s comes round: on a path on which it is non-nil the call is made again without the error having been returned, so a failure there (a rejected or damaged file, a truncation) can end in success. Path from entry: %s", s.callee, fn.Name(), ri.path(fn)))
+				continue
+			}
 			if len(fr.swallows) == 0 {
 				how := "tested and propagated"
 				if !fr.tested {
